@@ -44,8 +44,8 @@ type reqCall struct {
 	gotName   string
 	gotType   string
 	retStep   int
-	pad    int    // bytes of padding in the request's payload
-	qualNS string // non-empty: the request's start element is qualified with this namespace
+	pad       int    // bytes of padding in the request's payload
+	qualNS    string // non-empty: the request's start element is qualified with this namespace
 	// when the call's context ended or will end (its deadline, or the instant of the explicit cancel if that came first)
 	ctxEndAt time.Duration
 }
